@@ -87,7 +87,11 @@ func newValWorldOpts(run *mon.Run, pfx string, o L2EnvOpts) *valWorld {
 }
 
 func (w *valWorld) addValidator(v ValKey, opIdx, keyIdx int) sim.Result {
-	msg, err := opchildtypes.NewMsgAddValidator(fmt.Sprintf("m%d", opIdx), w.e.L2.Authority, v.Operator.Val(), v.Pub)
+	moniker := fmt.Sprintf("m%d", opIdx)
+	if opIdx%3 == 2 {
+		moniker = fmt.Sprintf("validator-%d-with-a-moniker-as-long-as-its-operator-likes-nothing-in-the-messages-bounds-it-%d", opIdx, keyIdx)
+	}
+	msg, err := opchildtypes.NewMsgAddValidator(moniker, w.e.L2.Authority, v.Operator.Val(), v.Pub)
 	if err != nil {
 		panic(err)
 	}
